@@ -1,5 +1,7 @@
 import os, re, sys, itertools
 from vf import Check, Stream, REPO
+sys.path.insert(0, os.path.join(os.path.dirname(os.path.abspath(__file__)), '..', 'gen'))
+import tables
 
 CAPS = [1, 2, 3, 7, 64, 500]
 KINDS = ['hm', 'hs', 'pm']
@@ -58,12 +60,43 @@ def str_universe(rng, cap, fam):
     return [hexs([0x61] * k) for k in range(0, 7)] + [hexs([0x61, 0, 0x61])]
 
 
+def uint_universe(rng, cap, fam):
+    # uint32: hash = zero extension (an int32 with the same bits would be sign-extended to another bucket)
+    c = max(cap, 1)
+    if fam == 0:
+        return [(1 << 32) - 1 - i for i in range(rng.randrange(3, 8))] + [0, 1]
+    if fam == 1:      # one bucket
+        return [(1 << 31) % c + i * c for i in range(rng.randrange(3, 8))]
+    if fam == 2:
+        return [0, 1, (1 << 31) - 1, 1 << 31, (1 << 31) + 1, (1 << 32) - 1, c, (1 << 32) - c][:rng.randrange(4, 9)]
+    r = rng.randrange(c)
+    return [r + i * c + (1 << 31) * (i % 2) // c * c for i in range(6)]
+
+
+def ptr_universe(rng, cap, fam):
+    # const void*: hash = address >> 3: the 8 addresses of one aligned word collide for EVERY capacity
+    c = max(cap, 1)
+    if fam == 0:
+        base = 8 * rng.randrange(1, 1 << 20)
+        return [base + i for i in range(rng.randrange(3, 9))]
+    if fam == 1:      # one bucket: (address >> 3) multiples of the capacity
+        return [8 * c * i + (i % 8) for i in range(rng.randrange(3, 8))]
+    if fam == 2:
+        return [0, 1, 7, 8, 9, 8 * c, 8 * c + 7, (1 << 47) - 8, (1 << 47), (1 << 61) + 5][:rng.randrange(4, 11)]
+    r = rng.randrange(c)
+    return [8 * (r + i * c) + rng.randrange(8) for i in range(6)]
+
+
 def universe(rng, kt, cap, fam=None):
     fam = rng.randrange(5) if fam is None else fam
     if kt == 'i':
         return [str(k) for k in int_universe(rng, cap, fam)]
     if kt == 'l':
         return [str(k) for k in long_universe(rng, cap, fam % 4)]
+    if kt == 'u':
+        return [str(k) for k in dict.fromkeys(uint_universe(rng, cap, fam % 4))]
+    if kt == 'p':
+        return [str(k) for k in dict.fromkeys(ptr_universe(rng, cap, fam % 4))]
     return str_universe(rng, cap, fam % 4)
 
 
@@ -247,6 +280,66 @@ class C02(Check):
                    'x = x excluded (C04); model carries the self-assignment guard',
                    'the Model mirrors the C++ code: validated by correspondence only']
 
+    # ---- member functions that are not instantiable for some key/value types -------------------------------------------
+    # The harness calls the const overloads of front()/back() through a const reference and removeBack() for every key
+    # type.  Two groups of these calls are behind a macro, because a defect of the headers can make them ill-formed
+    # (a compile error cannot be observed at run time): each group is probed with `g++ -fsyntax-only -D<macro>`; a
+    # group that compiles is switched on for the real build, a group that does not is reported as a failure of the
+    # property on its witness history together with the compiler's message (extra_checks), and the harness then
+    # reaches the same state through the neighbouring overload.
+    FEATURES = {
+        'C02_CONST_ALL': (['@pm s 7', 'app 0 6162 0', 'front 0', 'back 0'],
+                          'front() const / back() const of HashMap<String,int> and PoolMap<K,Val> called through a const reference'),
+        'C02_PTR_REMOVEBACK': (['@hm p 7', 'app 0 4096 1', 'app 0 4104 2', 'rmb 0'],
+                               'removeBack() of HashMap / HashSet / PoolMap with key type const void*'),
+    }
+    not_instantiable = None
+
+    def gen_tables(self):
+        # default capacity of the constructors, multiplier of hash(const String&), shift of hash(const void*);
+        # the bodies of hash(intN) are checked to be `return (usize)v;`
+        return [tables.gen_hash()]
+
+    def build(self):
+        import subprocess
+        from vf import VERIF
+        procs = {}
+        for f in self.FEATURES:
+            procs[f] = subprocess.Popen(['g++', '-fsyntax-only', '-w', '-DNDEBUG', '-DLIBNSTD_VERIF', '-D' + f,
+                                         '-I' + os.path.join(REPO, 'include'), '-I' + os.path.join(VERIF, 'harness', 'common'),
+                                         os.path.join(VERIF, 'harness', 'hash.cpp')], stdout=subprocess.PIPE, stderr=subprocess.STDOUT)
+        self.not_instantiable = {}
+        flags = []
+        for f, p in procs.items():
+            out, _ = p.communicate()
+            if p.returncode == 0:
+                flags.append('-D' + f)
+            else:
+                lines = [l.strip() for l in out.decode('utf-8', 'replace').split('\n') if ' error: ' in l]
+                self.not_instantiable[f] = (lines[0] if lines else out.decode('utf-8', 'replace').strip())[:400]
+        self.harness_flags = flags
+        return Check.build(self)
+
+    def extra_checks(self, tier, rng, ctx):
+        for f, msg in (self.not_instantiable or {}).items():
+            witness, what = self.FEATURES[f]
+            p = self.write_replay('failing-input', 'member function not instantiable (harness built without -D%s)' % f, witness,
+                                  {'reason': what + ' does not compile: ' + msg})
+            ctx['violations'].append((p, ''))
+
+    def judge(self, cases, impl_obs, spec_obs):
+        # the shared reporter groups failures by the first 80 characters of the reason: lead with the operation at
+        # which implementation and reference part, so that one defect is reported once (with its shortest history)
+        fails = []
+        for (i, k, reason) in Check.judge(self, cases, impl_obs, spec_obs):
+            ops = [l for l in cases[i] if not l.startswith('@')]
+            name = ops[k].split(' ')[0] if k < len(ops) else 'end-of-history'
+            if name in ('front', 'back'):
+                name = 'front/back (non-const overload, then the const overload through a const reference)'
+            fails.append((i, k, ('at operation `%s`: ' % name).ljust(82, '.') + ' ' + reason))
+        fails.sort(key=lambda f: len(cases[f[0]]))
+        return fails
+
     def run_impl(self, cases, tag='impl'):
         # chunks of 350 cases: a broken tree may crash on most cases, and the shared runner gives up after 400
         # restarts per call - with chunks every crash still ends in a VIOLATION with a concrete failing input
@@ -288,12 +381,12 @@ class C02(Check):
                     cases.append([header(kd, kt, caps)] + ops)
             return cases
 
-        out.append(Stream('mixed', rand_cases(900 * mul, 'mixed', ['i', 's', 'i', 'l', 's']),
+        out.append(Stream('mixed', rand_cases(900 * mul, 'mixed', ['i', 's', 'u', 'l', 's', 'p']),
                           note='mostly valid random histories, all kinds/key types, capacities {1,2,3,7,64,500}'))
-        out.append(Stream('collide', rand_cases(700 * mul, 'collide', ['i', 's', 'l'], capsets=[1, 1, 2, 3, 7], fams=[1, 3, 0, 2],
+        out.append(Stream('collide', rand_cases(700 * mul, 'collide', ['i', 's', 'l', 'p', 'u'], capsets=[1, 1, 2, 3, 7], fams=[1, 3, 0, 2],
                                                 nops=(12, 45)),
                           note='long chains: capacity 1..7, keys that are multiples of the capacity / share the hashed characters'))
-        out.append(Stream('multi', rand_cases(500 * mul, 'multi', ['i', 's']),
+        out.append(Stream('multi', rand_cases(500 * mul, 'multi', ['i', 's', 'p']),
                           note='several variables: swap, copy, assignment, ==, bulk append/remove'))
         out.append(Stream('pool', rand_cases(300 * mul, 'pool', ['i', 's'], nops=(20, 70), probe_p=0.1),
                           note='node recycling: more than one block, LIFO free list, clear then reuse'))
@@ -346,6 +439,21 @@ class C02(Check):
                                   'rmf 1', 'pre 1 %s %s' % (k1, v(2)), 'eq 0 1', 'rmf 1', 'app 1 %s %s' % (k1, v(2)), 'eq 0 1', 'setv 1 %s 9' % k1, 'eq 0 1'])
                     # bulk ops with overlap
                     cases.append([h] + base[:3] + ['app 1 %s 0' % k2, 'app 1 %s 0' % k4, 'app 1 %s 0' % k0, 'appall 0 1', 'rmall 0 1', 'appall 1 0', 'rmall 1 1', 'appall 0 0'])
+                    # the empty String key (and a one-byte key) met by every operation through every kind of String
+                    # storage: the harness presents successive keys as heap copy / attached slice behind a non-NUL byte /
+                    # default-constructed / attached unterminated slice, so `shift` lookups first rotate the assignment
+                    if kt == 's':
+                        for shift in range(4):
+                            for e in ('-', '61'):
+                                seq = ['app 0 %s %s' % (e, v(1)), 'find 0 ' + e, 'has 0 ' + e, 'app 0 %s %s' % (e, v(2)), 'find 0 ' + e,
+                                       'ins 0 0 %s %s' % (e, v(3)), 'has 0 ' + e, 'find 0 ' + e, 'app 0 %s %s' % (k2, v(4)), 'app 0 %s %s' % (e, v(5)),
+                                       'rmk 0 ' + e, 'find 0 ' + e, 'has 0 ' + e, 'app 0 %s %s' % (e, v(6)), 'app 0 %s %s' % (e, v(7)), 'rmk 0 ' + e, 'rmk 0 ' + e,
+                                       'app 1 %s %s' % (e, v(8))]
+                                if kd == 'hs':
+                                    seq += ['app 0 %s 0' % e, 'rmall 0 1', 'has 0 ' + e, 'appall 0 1', 'appall 0 1', 'eq 0 1']
+                                if kd != 'hs':
+                                    seq += ['app 0 %s %s' % (e, v(9)), 'setv 0 %s 11' % e, 'setv 0 %s 12' % e, 'setv 0 %s 13' % e]
+                                cases.append([h] + ['has 1 ' + k1] * shift + seq)
                     # two blocks, clear, reuse order
                     many = [str(i * max(cap, 1)) for i in range(9)] if kt == 'i' else [hexs([0x61, 0x41 + i, 0x62, 0x41 + 2 * i, 0x63]) for i in range(9)]
                     cases.append([h] + ['app 0 %s %s' % (k, v(i)) for i, k in enumerate(many)] + ['rmi 0 4', 'rmk 0 ' + many[1], 'rmb 0', 'rmf 0',
